@@ -4,6 +4,7 @@ import (
 	"bufio"
 	"bytes"
 	"context"
+	"errors"
 	"fmt"
 	"io/fs"
 	"os"
@@ -49,8 +50,11 @@ type C15Scenario struct {
 	// Sparse: decode modes: additional sparse source files of these sizes
 	// (2^31-1, 2^31, 2^32-1, 2^32, 2^40 ...) so that the real sender has to
 	// encode 64-bit lengths; they are listed but never requested.
-	Sparse []int64   `json:"sparse,omitempty"`
-	Tr     Transport `json:"tr"`
+	Sparse []int64 `json:"sparse,omitempty"`
+	// HeadOnly: the sparse giants are requested after all (as whole files), but
+	// the receiver only looks at the checksum header of the answer and hangs up
+	HeadOnly bool      `json:"head_only,omitempty"`
+	Tr       Transport `json:"tr"`
 }
 
 type c15 struct{}
@@ -179,6 +183,7 @@ func (c15) Generate(seed uint64, tier string, index int) any {
 			}
 		}
 		sc.Src.Dedupe()
+		sc.HeadOnly = g.R.Bool()
 		if g.R.Intn(3) == 0 {
 			big := []int64{1<<31 - 1, 1 << 31, 1<<31 + 1, 1<<32 - 1, 1 << 32, 1<<32 + 1, 3 << 30, 1 << 40, 1<<31 + 12345}
 			for i := 0; i < 1+g.R.Intn(3); i++ {
@@ -281,8 +286,30 @@ func c15Decode(t *testing.T, sc *C15Scenario, job *Job, res *Result) {
 	}
 	o := model.ParseOpts(sc.Opts)
 	lo := listOptsFor(o)
+	var headOnlyAbove int64
+	maxSparse := int64(0)
+	for _, sz := range sc.Sparse {
+		maxSparse = max(maxSparse, sz)
+	}
+	// (the sender hashes a requested file to its end in a helper goroutine,
+	// also after the receiver has gone: only giants of a few GiB are asked for)
+	if sc.HeadOnly && len(sc.Sparse) > 0 && maxSparse <= 1<<32+1<<20 {
+		headOnlyAbove = 64 << 20
+		// the sender starts pumping gigabytes the moment it is asked: it must
+		// meet back-pressure, or it fills an unbounded buffer long before the
+		// receiver has seen the header and hung up
+		if sc.Tr.CapSC < 0 || sc.Tr.CapSC > 1<<20 {
+			sc.Tr.CapSC = 1 << 20
+		}
+		if sc.Tr.CapCS < 0 || sc.Tr.CapCS > 1<<20 {
+			sc.Tr.CapCS = 1 << 20
+		}
+		if sc.Tr.MinChunk < 4096 {
+			sc.Tr.MinChunk = 4096
+		}
+	}
 	plan := func(idx int, e *refproto.Entry, seed int32) (bool, []byte, int, int) {
-		if e.Size > 64<<20 || e.Size < 0 {
+		if (e.Size > 64<<20 && headOnlyAbove == 0) || e.Size < 0 {
 			return false, nil, 0, 0 // sparse giants are listed, not transferred
 		}
 		return true, nil, 0, 0
@@ -305,7 +332,7 @@ func c15Decode(t *testing.T, sc *C15Scenario, job *Job, res *Result) {
 		}
 		rr.Ref = func(w *refproto.Wire) error {
 			var err error
-			pr, err = refproto.Pull(w, refproto.PullOpts{Daemon: true, Module: "mod", Args: args, List: lo, ServerIsSender: true, Plan: plan, MaxData: 8 << 20})
+			pr, err = refproto.Pull(w, refproto.PullOpts{Daemon: true, Module: "mod", Args: args, List: lo, ServerIsSender: true, Plan: plan, MaxData: 8 << 20, HeadOnlyAbove: headOnlyAbove})
 			return err
 		}
 	case "decode-command":
@@ -322,7 +349,7 @@ func c15Decode(t *testing.T, sc *C15Scenario, job *Job, res *Result) {
 		}
 		rr.Ref = func(w *refproto.Wire) error {
 			var err error
-			pr, err = refproto.Pull(w, refproto.PullOpts{Negotiate: true, List: lo, ServerIsSender: true, Plan: plan, MaxData: 8 << 20})
+			pr, err = refproto.Pull(w, refproto.PullOpts{Negotiate: true, List: lo, ServerIsSender: true, Plan: plan, MaxData: 8 << 20, HeadOnlyAbove: headOnlyAbove})
 			return err
 		}
 	case "decode-client":
@@ -338,7 +365,7 @@ func c15Decode(t *testing.T, sc *C15Scenario, job *Job, res *Result) {
 		}
 		rr.Ref = func(w *refproto.Wire) error {
 			var err error
-			pr, err = refproto.Pull(w, refproto.PullOpts{AsServer: true, Daemon: true, ServerSeed: 777, OptsFromArgs: true, List: lo, Plan: plan, MaxData: 8 << 20})
+			pr, err = refproto.Pull(w, refproto.PullOpts{AsServer: true, Daemon: true, ServerSeed: 777, OptsFromArgs: true, List: lo, Plan: plan, MaxData: 8 << 20, HeadOnlyAbove: headOnlyAbove})
 			return err
 		}
 	}
@@ -353,6 +380,12 @@ func c15Decode(t *testing.T, sc *C15Scenario, job *Job, res *Result) {
 	if out.Panic != "" {
 		fail("panic", panicSignature(out.Panic), out.Panic)
 		return
+	}
+	if errors.Is(out.RefErr, refproto.ErrHeadOnly) {
+		// the receiver hung up on purpose after a consistent checksum header;
+		// the sender's broken pipe is the expected end of this session
+		res.Probe("head_only_requests", 1)
+		out.RefErr, out.RealErr, out.Outcome = nil, nil, kernel.Finished
 	}
 	if out.Outcome != kernel.Finished || out.RefErr != nil || out.RealErr != nil {
 		st := ""
